@@ -5,7 +5,7 @@ from __future__ import annotations
 from typing import Any, Iterable, List, Optional, Tuple
 
 from ..engine.flow import Automaton, MayRaise, Runner, State, violation
-from ..engine.match import Spec, residual
+from ..engine.match import Spec, loop_doms, residual
 from ..engine.report import Check
 from ..engine.terms import C, Term, implies, mentions, mk_not, show
 from ..engine.walker import Event
@@ -244,6 +244,31 @@ def r09_6(ck: Check) -> None:
         ck.violated("R09.6", "handle_block_received is called only from handle_data_message_received", "callers: %s" % callers, "")
 
 
+def r09_8(ck: Check) -> None:
+    """relay = one DataMessage(DATA_BLOCK, block) to every active peer, a failing peer does not stop the others"""
+    s = ck.summ(NM + "broadcast_block", 0)
+    sp = Spec(s, ("self", "block"))
+    calls = [e for e in s.events if e.kind == "call" and NM + "broadcast_message" in e.targets]
+    if len(calls) == 1 and calls[0].term[2] == (sp.term("DataMessage(DATA_BLOCK, block)"),) and not residual(calls[0], ()) and not calls[0].loops:
+        ck.ok("R09.8", "broadcast_block = broadcast_message(DataMessage(DATA_BLOCK, block)), once", "", calls[0].loc)
+    else:
+        ck.violated("R09.8", "broadcast_block = broadcast_message(DataMessage(DATA_BLOCK, block)), once", "%s" % [e.describe()[:120] for e in calls], s.fi.loc)
+    s = ck.summ(NM + "broadcast_message", 0)
+    spl = Spec(s, ("self", "m"), forall=[("p", "self.get_active_peers()")])
+    sends = [e for e in s.events if e.kind == "call" and e.parts and e.parts[0] == ("a", spl.term("p"), "send_message")]
+    construct = "broadcast_message: exactly one send_message(message) per active peer; a peer whose socket fails is skipped, not fatal"
+    ok = (len(sends) == 1 and sends[0].term[2] == (spl.term("m"),) and list(loop_doms(sends[0])) == spl.loops and not residual(sends[0], ())
+          and not any(l[2] for l in sends[0].loops) and bool(sends[0].tries))
+    if ok:
+        ck.ok("R09.8", construct, "", sends[0].loc)
+    else:
+        ck.violated("R09.8", construct, "%s" % [e.describe()[:160] for e in sends], s.fi.loc)
+    s = ck.summ(NM + "get_active_peers", 0)
+    from ..engine.match import require_return
+    require_return(ck, "R09.8", s, Spec(s, ("self",)), "[p for p in self.connected_peers.values() if p.hello_sent and p.hello_received]",
+                   "active peers = connected peers that completed the greeting in both directions")
+
+
 def check(ck: Check) -> None:
     ck.explanations.append(
         "C09: typestate automaton (duplicate test, orphan drop, structural validation, apply, buffer, in-state validation, publish | roll back) "
@@ -252,6 +277,7 @@ def check(ck: Check) -> None:
     ck.run("R09.flow", "typestate of handle_block_received over all paths incl. exceptional", lambda: r09_flow(ck))
     ck.run("R09.5", "buffer alias agreement", lambda: r09_5(ck))
     ck.run("R09.6", "relay exactly once", lambda: r09_6(ck))
+    ck.run("R09.8", "relay fan-out", lambda: r09_8(ck))
     ck.assume("each delivery is one run of the handler from a state satisfying what the previous run re-established (inductive reading); "
               "outside bulk download last_known_valid_coinstate is the state already served, so the rollback's pool cleanup is the identity")
     ck.assume("failures that cannot depend on the delivered block (lock, logger, sqlite environment) are not 'rejections'")
